@@ -194,6 +194,9 @@ def run(ctx, name, kind, **kw):
         for bits in (13, 31, 64, 65, 127, 200, 256, 521, 600):
             mods.append(("inv.big", nt.random_prime(bits, rng)))
             mods.append(("inv.big", rng.getrandbits(bits) | (1 << (bits - 1))))  # composite-ish
+        # the smallest modulus: everything is invertible modulo 1 (gcd(a, 1) = 1) and the only value in [0, 1) is 0
+        for a1 in (0, 1, -1, 2, -2, 5, -5, 1 << 70, -(1 << 70), -(1 << 521) - 1):
+            check_inv(ctx, a1, 1, "inv.modulus_one")
         per = max(1, kw["count"] // len(mods))
         for cls, m in mods:
             cand = [1, m - 1, m + 1, -1, -m - 1, 2, m - 2, 2 * m + 1, m * m + 1, -(m * m) - 1, 1 << (m.bit_length() // 2)]
